@@ -48,6 +48,19 @@ CHECKS = {
             "Probe execute bodies are simulator stubs; only Program.run() is judged (direct result reads on a cyclic "
             "program are recorded, not judged).",
             "DESIGN.md 5/C14"),
+    "C02": ("modelsim", "exploration",
+            "deterministic simulation: each generated well-typed EEMS model is run through the real parser/loader/"
+            "evaluator/libraries on a simulated disk under several seeded evaluation schedules (textual permutations, "
+            "client pull histories, extra consumers, metadata) and refined against an exact-arithmetic reference "
+            "interpreter, plus bit-for-bit comparison between schedules",
+            "Seeded exploration. For every model (typed random DAG over all 32 data commands; float/integer columns; "
+            "missing cells) the mask of every result must equal the reference mask exactly and the values agree within "
+            "1e-9 relative, under every sampled schedule; results of different schedules of one model must be "
+            "bit-identical. The in-family claim is order/sharing/metadata/history independence; breadth of tables and "
+            "parameters is only sampled.",
+            "Reference semantics per DESIGN.md Appendix A (MeanToMid family: regression oracle). Ill-conditioned and "
+            "boundary cells are excluded and counted. File system is SimFS. numpy/csv/ply trusted.",
+            "DESIGN.md 5/C02"),
 }
 
 PENDING = {}
